@@ -48,6 +48,11 @@ def slotOf : Option R → Slot
 
 inductive Recovered | unreadable | store (f : T → Slot)
 
+/-- what is read for task `t` (`none`: the DB as a whole is unreadable) -/
+def Recovered.slot? : Recovered → T → Option Slot
+  | .unreadable, _ => none
+  | .store f, t => some (f t)
+
 /-- a readable record is *legitimate* when it is the record present before the run or one saved by a successful
     execution during the run: the DB never shows a record nobody wrote -/
 def Legit (old : Store) (effs : List Eff) (t : T) (r : R) : Prop := old t = some r ∨ Eff.save t r ∈ effs
